@@ -290,3 +290,56 @@ def lane_bypass(rep, prog, rule):
                 rep.unk(rule, key, f.loc, "identity return under a condition that is not "
                         "classified: %s" % [fmt(c)[:80] for c, v in sym.facts_at(bb)][:2])
     rep.floor(rule, "vector-to-vector alpha primitives", n, 8)
+
+
+def f64_accumulate(rep, prog, rule, floor=20):
+    """C01 / C02 / C18: float kernels accumulate in double precision."""
+    import re
+    from ..cfg import Dom, loop_blocks
+    rep.rule(rule, "every floating-point multiply / add of the f32 convolution kernels (convolution::f32xN, "
+             "vertical_f32, all back-ends) is done in double precision (`*_pd` intrinsics, f64 scalars): "
+             "each source value is widened, the window is summed in f64 and rounded to f32 once. A "
+             "single-precision multiply or add inside the loop over the window rounds once per tap, the "
+             "error grows with the window (tens of ulp for strong reductions) and the back-end differs "
+             "from the others: violation; single-precision arithmetic outside a loop is undecided")
+    n = 0
+    for f in sorted(prog.fns.values(), key=lambda x: x.id):
+        if not re.match(r"^convolution::(f32x\d|vertical_f32)::", f.name):
+            continue
+        loops = None
+        sites = []
+        for c in f.calls():
+            nm = c.method or c.name.rsplit("::", 1)[-1]
+            if re.search(r"(mul|add|sub|fmadd|fmsub|fma|hadd|dp|mla|madd)", nm) and \
+                    re.search(r"(_p[sd]$|_s[sd]$|f32x\d|f64x\d|_f32$|_f64$)", nm):
+                single = bool(re.search(r"(_ps$|_ss$|f32x\d|_f32$)", nm))
+                sites.append((nm, single, c.bb, c.at))
+        for b, blk in enumerate(f.blocks):
+            if blk["c"]:
+                continue
+            for st in blk["s"]:
+                if st[0] == "a" and st[2][0] == "bin" and st[2][1] in ("Mul", "Add", "Sub") and len(st[1]) == 1:
+                    ty = f.local_ty(st[1][0])
+                    if ty in ("f32", "f64"):
+                        sites.append(("scalar %s" % st[2][1], ty == "f32", b, st[3]))
+        if not sites:
+            continue
+        rep.touch(f)
+        seen = {}
+        for nm, single, bb, at in sites:
+            n += 1
+            k0 = "%s|%s" % (f.name, nm)
+            seen[k0] = seen.get(k0, 0) + 1
+            key = k0 if seen[k0] == 1 else "%s #%d" % (k0, seen[k0])
+            if not single:
+                rep.ok(rule, key, at, "double precision")
+                continue
+            if loops is None:
+                loops = loop_blocks(f, Dom(f))
+            if any(bb in body for body in loops.values()):
+                rep.bad(rule, key + "|single-precision", at,
+                        "%s: %s works in single precision inside the loop over the window; the other paths "
+                        "widen to f64, accumulate there and round once" % (f.name, nm))
+            else:
+                rep.unk(rule, key, at, "%s in single precision outside a loop" % nm)
+    rep.floor(rule, "floating-point operations in the f32 kernels", n, floor)
